@@ -14,6 +14,8 @@ def run(tier):
     ck.extra['allocation_sites'] = sites
     ck.extra['functions_walked'] = funs
     ck.note('R04.3 (no allocation on the in-place edge) is decided under C10 (R10.1)')
+    irrules.run_canaries(ck, {'ir_alloc': [('R04.1', 'canary_leak_on_throw'), ('R04.5', 'canary_free_inline')]},
+                         silent=('canary_ok_alloc',))
     ck.assumptions += ['Allocator requirements: deallocate/copy/== do not throw',
                        'clang 14 -O0 lowering of try/catch/noexcept (invoke/landingpad/terminate pads)',
                        'summary inlining bound: loop-free callees with <= 10 paths are expanded in place, others are opaque with may-throw/may-write summaries']
